@@ -236,6 +236,9 @@ def run(ctx):
 
     quick = ctx.tier == "quick"
     ctx.pmap(me, "cli_batch", [(w, h) for w in wf_defs() for h in (False, True)], chunk=1, ranks=2 if quick else 3)
+    if not quick:
+        # four distinct ages per output for the workflows with three outputs (every order of three files plus 'older than all')
+        ctx.pmap(me, "cli_batch", [(w, h) for w in ("chain", "shortcut", "subdirs") for h in (False, True)], chunk=1, ranks=4)
     oitems = []
     for wname in ("diamond", "fork", "twocomp", "shortcut", "shortcut2"):
         defs = wf_defs()[wname]
